@@ -1234,6 +1234,36 @@ func (b *WB) QuerySet(f ecs.Filter) ([]int, *Finding) {
 	return out, fd
 }
 
+// entityAtSet: Query.Count and Query.EntityAt(i) for every index of a fresh query through c select
+// the entities in want (the ones iteration yielded), each at exactly one index.
+func (b *WB) entityAtSet(c *Compiled, want []int) *Finding {
+	var fd *Finding
+	p := Call(func() {
+		q := b.W.Query(c.Flt)
+		defer q.Close()
+		n := q.Count()
+		if n != len(want) {
+			fd = finding(CatScan, "%s: Count() of a query with filter %s = %d, iteration yields %d entities", b.Name, c.F.String(), n, len(want))
+			return
+		}
+		ws := asSet(want)
+		seen := map[int]bool{}
+		for i := 0; i < n; i++ {
+			h := q.EntityAt(i)
+			ord, ok := b.Ord[h]
+			if !ok || !ws[ord] || seen[ord] {
+				fd = finding(CatScan, "%s: EntityAt(%d) of a query with filter %s (Count %d) = %v (#%d, known %v, seen before %v); iteration yields %v", b.Name, i, c.F.String(), n, h, ord, ok, seen[ord], sortedCopy(want))
+				return
+			}
+			seen[ord] = true
+		}
+	})
+	if p != nil {
+		return finding(CatPanicQuery, "%s: Count/EntityAt of a query with filter %s panicked: %v", b.Name, c.F.String(), p)
+	}
+	return fd
+}
+
 func asSet(v []int) map[int]bool {
 	m := map[int]bool{}
 	for _, x := range v {
@@ -1877,6 +1907,10 @@ func (s *Sim) checkRelQueries() {
 				got, fd := b.QuerySet(c.Flt)
 				if fd == nil {
 					fd = s.checkSelection(b, c, got, "relation query")
+				}
+				if fd == nil {
+					// the same selection by random access: Count + EntityAt(0..Count-1) of a fresh query
+					fd = b.entityAtSet(c, got)
 				}
 				if fd != nil {
 					fd.Cat = CatRelation
